@@ -87,7 +87,7 @@ def run_formulas(chk):
     total = z3.Sum(M.flat())
     trace = z3.Sum([M.rows[i][i] for i in range(4)])
     diffs = total - trace
-    for name in funcs:
+    for name in ("_hamming", "_jc69_from_matrix"):       # (helpers resolved on the way are added to funcs)
         fn = f"evolve.fast_distance.{name}"
         results = {}
         for label, mat in (("M", M), ("M^T", M.T())):
